@@ -46,12 +46,12 @@ class VPLEnvironment(Environment):
         if not skip_tifa:
             tifa_analysis(report=self.report)
         if inputs:
-            set_input(inputs)
+            set_input(inputs, report=report)
         if skip_run:
             student = get_sandbox(report=report)
         else:
             if trace:
-                start_trace()
+                start_trace(report=self.report)
             student = run(report=report)
         self.fields = {
             'student': student,
@@ -70,7 +70,7 @@ class VPLEnvironment(Environment):
             student.clear()
         else:
             if self.trace:
-                start_trace()
+                start_trace(report=self.report)
             student.clear()
             student = student.run()
         return student
